@@ -761,6 +761,23 @@ func returnContradicts(g *ssa.Function, ret *ssa.Return, k int, call *ssa.Call, 
 	return false
 }
 
+// FactMatchesDeep: f matches m itself, or implies a fact that does, or is the outcome of a
+// predicate helper / boolean phi that can come about only through edges matching m.
+func FactMatchesDeep(f Fact, m FactM, ctx []Fact) bool {
+	if m(f) {
+		return true
+	}
+	for _, x := range impliedByPredicate(f, 0) {
+		if m(x) {
+			return true
+		}
+	}
+	if phiOutcomeOnlyThrough(f, m) {
+		return true
+	}
+	return predicateOnlyThrough(f, m, 0, ctx)
+}
+
 // phiOutcomeOnlyThrough: f tests a boolean assembled by && / || (a phi); it matches m when every
 // incoming definition that can yield the tested outcome does so under a fact matching m — the
 // branch that selected a constant, or the definition's own outcome.
